@@ -9,7 +9,7 @@ import (
 
 func init() {
 	register(&propDef{
-		ID: "C02", Level: "other", Run: withShared(runC02, share{"C10", runC10, ruleIs("recompute-on-deal", "one-hand")}, share{"C01", runC01, ruleIs("pots-refreshed", "pot-feed", "pot-totals-from-levels")}),
+		ID: "C02", Level: "other", Run: withShared(runC02, share{"C10", runC10, ruleIs("recompute-on-deal", "one-hand", "enumeration-complete")}, share{"C01", runC01, ruleIs("pots-refreshed", "pot-feed", "pot-totals-from-levels")}),
 		Explanation: "Structural necessary conditions of a fair showdown, decided on every path: a folded player enters every ranking with strength 0 and a live player with their published strength; a player is ranked in a contribution level only under an equality test with one of that level's contributors; every published pot and every level of it is forwarded to the settlement, every pot and level is visited, and for each level both the winner and the loser routine run; winners are the first group of the groups sorted by score in descending order and losers everybody else; each winner's share of a level is the integer quotient of the level total by the number of winners, plus one for a number of winners given by the remainder (so shares differ by at most one chip), and each loser loses exactly the level's wager. Winner shares are Total/len(winners) plus one chip for exactly remainder-many winners; levels never share a contributor array; layers are distinct, sorted ascending, membered by Level <= contribution over all contributions, with step = level minus previous level and total = members x step; hands are re-evaluated on every dealing path (shared with C10). Does NOT decide the numeric outcome for arbitrary contribution vectors (ties across levels, uncalled excess).",
 		Trusted:     commonTrusted,
 		Assumptions: []string{"sort.Slice orders by the less function given (documented)"},
@@ -503,6 +503,18 @@ func checkShareShape(c *Ctx, ruleName string) {
 					tIdx = t
 				}
 			}
+			// a range loop's counter runs one behind the position (it starts at -1), an index
+			// loop's counter is the position
+			idxBase := int64(-1)
+			for _, in := range l.Header.Instrs {
+				if ph, ok := in.(*ssa.Phi); ok && tIdx != "" && strings.HasSuffix(tIdx, "."+ph.Name()) {
+					if init, _ := phiInitStep(l, ph); init != nil {
+						if k, ok := constInt(init); ok {
+							idxBase = k
+						}
+					}
+				}
+			}
 			if tRem == "" || tIdx == "" {
 				bad = append(bad, "the extra chip does not depend on both the winner's position and the remainder Total % len(winners)")
 			} else {
@@ -515,7 +527,7 @@ func checkShareShape(c *Ctx, ruleName string) {
 								for _, t := range ints {
 									a.I[t] = 0
 								}
-								a.I[tIdx] = i - 1
+								a.I[tIdx] = i + idxBase
 								a.I[tRem] = R
 								if tLen != "" {
 									a.I[tLen] = n
